@@ -378,6 +378,9 @@ func runTransfer(t *testing.T, sc Scenario, sum *summary, tf *vh.TraceFile) {
 			if sc.Corrupt > 0 && srv != nil {
 				injectCorrupt(w, sc, rng, srv, cli, l)
 			}
+			if sc.OOB > 0 && sc.Cfg.D > 0 {
+				injectForeignOOB(w, rng, 77)
+			}
 		}
 		// final state, then close everything in a seeded order
 		<-accepted
